@@ -288,6 +288,9 @@ class Checker:
                (re.escape(a), True, True, "regex"),
                (re.escape(a).swapcase() if a.isalnum() else re.escape(a), False, True, "regex-nocase"),
                (re.escape(a[:1]) + ".*", True, True, "regex-prefix")]
+        # character classes and anchors written with capital letters keep their meaning when letter case is ignored
+        out += [(r"\D+", False, True, "regex-class-nocase"), (r"\S+", self.r.random() < 0.5, True, "regex-class"),
+                (r"\A" + re.escape(a) + r"\Z", False, True, "regex-anchors-nocase"), (r"[^\W\d]\w*", False, True, "regex-negated-class-nocase")]
         if len(a) >= 2:
             # full match means the WHOLE value, also when a shorter alternative or a lazy quantifier could stop earlier
             k_ = self.r.randint(1, len(a) - 1)
@@ -368,7 +371,17 @@ class Checker:
                                      tag, p, kind, ic, ir, len(gi), len(ei), k_eff))
             # R3
             if self.r.random() < 0.3:
-                g = (lambda x: (len(self.value(x, k_eff) or "") % 2) == 0)
+                # the callback is any predicate: it may answer with a bool, a number or an object (truthiness counts)
+                form_ = self.r.randrange(4)
+                if form_ == 0:
+                    g = (lambda x: (len(self.value(x, k_eff) or "") % 2) == 0)
+                elif form_ == 1:
+                    g = (lambda x: len(self.value(x, k_eff) or "") % 3)             # 0 / 1 / 2
+                elif form_ == 2:
+                    g = (lambda x: (self.value(x, k_eff) or "")[1:2])                # '' or a one-character string
+                else:
+                    g = (lambda x: [x] if len(self.value(x, k_eff) or "") % 2 else None)
+                ctx.count("filter_callbacks_returning_non_bool", 1 if form_ else 0)
                 try:
                     gotf = list(f(root, p, is_case=ic, is_re=ir, filter=g, **kwk))
                 except Exception as ex:  # noqa: BLE001
@@ -480,7 +493,7 @@ def run_case(ctx, i, rng):
                         if len(set(map(id, U))) != len(U):
                             ck.fail("R0-duplicates-unfiltered:%s:%s" % (fname, label), "%s(%s,%s) returns an element twice" % (fname, label, opts))
                             return
-                        g = (lambda x: id(x) % 3 == 0)
+                        g = (lambda x: id(x) % 3 == 0) if rng.random() < 0.5 else (lambda x: id(x) % 3)     # bool or int answers
                         got = list(f(root, filter=g, **opts))
                         ctx.count("relations_R3")
                         if ids(got) != ids([x for x in U if g(x)]):
